@@ -130,7 +130,7 @@ def run(ctx):
         programs=len(items),
         distinct_nontrivial=tot["nontrivial"],
         rule="all sets of 2-3 sub-behaviours with weights from {0.5,1,2,3} (dict and list forms), choose and shuffle, once / twice in a row / "
-        "in a loop, plus run-time Uniform/Discrete/DiscreteRange values drawn twice x all constant precondition truth tables and every "
+        "in a loop, plus items that end without consuming a time step and write flags read by other items' preconditions (eligibility at each pick), plus run-time Uniform/Discrete/DiscreteRange values drawn twice x all constant precondition truth tables and every "
         "single switch-over x EVERY outcome of the random number generator during the simulation; non-trivial = (program, table) whose "
         "exact outcome distribution has >= 2 outcomes; states = distinct (trace, outcome) leaves",
         samples=[{"index": items[i][0], "program": gd.render(items[i][1])} for i in (0, len(items) // 2)],
